@@ -39,7 +39,8 @@ mod assignment_pre_conversion_validation_rules {
         input: &Expression,
         pos: Position,
     ) -> Result<(), LintErrorPos> {
-        if let Expression::Variable(var_name, _) = input {
+        // a name with dots such as `A.B` can be the name of a constant too
+        if let Some(var_name) = input.fold_name() {
             if ctx
                 .names
                 .contains_const_recursively(var_name.as_bare_name())
